@@ -31,7 +31,7 @@ SYMS = ([["req", i, v] for i in (1, 2) for v in range(3)] + [["release", 1], ["r
         ["load", "json"], ["load", "bin"], ["restart", "json"], ["restart", "bin"]])
 RULE = ("small-scope sweep: all event sequences to length 3 (quick) / 5 (thorough) over a 14-symbol alphabet {request(id in {1,2}, via "
         "in {direct, 0o1, 0o21}), release(id), save json|bin, load json|bin, restart+load json|bin}; seeded sequences of length 4..8 over the same alphabet; seeded histories to length 30 "
-        "with IDs 1..255, vias of level 0..3 and repeated requests that fill parents completely. Non-trivial: at least one lease "
+        "with IDs 1..255, vias of level 0..3 and repeated requests that fill parents completely; tables of 0..255 random entries saved and re-loaded by a fresh object in both formats. Non-trivial: at least one lease "
         "was granted; distinct = distinct event sequences")
 ASSUMPTIONS = ["requests are injected as frames on the master's pipes (a relayed request = origin rewritten to the via node)",
                "no crash consistency of the file is claimed: exact round trip only"]
@@ -71,6 +71,10 @@ def make(i, base_seed, tier):
             j //= k
             ev.append(["req", s[1], VIAS[s[2]]] if s[0] == "req" else list(s))
         return {"seed": seed, "events": ev, "kind": "bfs"}
+    if rng.random() < 0.06:
+        # persistence of arbitrary table contents: 0..255 entries set through the public set_address()
+        return {"seed": seed, "events": [["fill", rng.choice([0, 1, 2, 17, 100, 254, 255, rng.randint(0, 255)])], ["save", "json"], ["save", "bin"],
+                                         ["restart", rng.choice(["json", "bin"])], ["restart", rng.choice(["json", "bin"])]], "kind": "persist"}
     if rng.random() < 0.75:
         # seeded sequences over the small alphabet, longer than the sweep reaches
         ev = []
@@ -153,6 +157,12 @@ def _run(scn, w, res):
             table = dict(master.dhcp_dict)
             if not _inv(res, table, "request(id %d via %o)" % (nid, via)):
                 return
+            others_now = {k: v for k, v in table.items() if k != nid}
+            others_before = {k: v for k, v in before.items() if k != nid}
+            if others_now != others_before:
+                res.add("injective", {"kind": "foreign_lease_changed", "after": "request"}, "request(id %d via %o) changed other IDs' leases: %r -> %r"
+                        % (nid, via, {k: oct(v) for k, v in others_before.items()}, {k: oct(v) for k, v in others_now.items()}))
+                return
             new = table.get(nid)
             if new is not None:
                 ever_leased.add(new)
@@ -198,6 +208,16 @@ def _run(scn, w, res):
                 res.add("reuse", {"kind": "free_child_not_leased", "free": min(len(free_before), 2)},
                         "request(id %d via %o): children %r are free but no lease was granted (table %r)" % (nid, via, [oct(c) for c in free_before], {k: oct(v) for k, v in before.items()}))
                 return
+        elif ev[0] == "fill":
+            frng = stream(scn["seed"], "fill")
+            addrs = frng.sample([a for a in netref.all_addresses() if a], ev[1])
+            ids = frng.sample(range(1, 256), ev[1])
+            for i_, a_ in zip(ids, addrs):
+                master.set_address(i_, a_)
+            granted += ev[1]
+            if dict(master.dhcp_dict) != dict(zip(ids, addrs)):
+                res.add("persist", {"kind": "set_address"}, "set_address() of %d distinct pairs left %d entries" % (ev[1], len(master.dhcp_dict)))
+                return
         elif ev[0] == "release":
             nid = ev[1]
             if nid not in master.dhcp_dict:
@@ -221,6 +241,11 @@ def _run(scn, w, res):
                 res.add("reuse", {"kind": "release_ignored"}, "MESH_ADDR_RELEASE from %o did not free the lease of id %d" % (addr, nid))
                 return
             if not _inv(res, dict(master.dhcp_dict), "release"):
+                return
+            want = {k: v for k, v in before.items() if k != nid}
+            if dict(master.dhcp_dict) != want:
+                res.add("injective", {"kind": "foreign_lease_changed", "after": "release"}, "a MESH_ADDR_RELEASE from %o (id %d) turned the table %r into %r"
+                        % (addr, nid, {k: oct(v) for k, v in before.items()}, {k: oct(v) for k, v in master.dhcp_dict.items()}))
                 return
         elif ev[0] == "save":
             fmt = ev[1]
